@@ -1,7 +1,7 @@
 SPECIFICATION MSpec
 CONSTANTS
-  NSrc = 3
-  Keys = {1, 2, 3, 4}
+  NSrc = 4
+  Keys = {1, 2, 3}
   TieBySourceIndex = TRUE
 INVARIANTS OutPrefixOk DoneComplete
 CHECK_DEADLOCK FALSE
